@@ -170,7 +170,7 @@ def run(tier):
     rep.add_tlc(g[1])
     recs = []
     for e in ENCODERS:
-        recs += vf.run_shards(binary, g[0], args=['--encoder', e])
+        recs += vf.run_shards(binary, g[0], args=['--encoder', e] + (['--extra-every', '8'] if tier == 'thorough' else []))
     for c in TRANS[tier]:
         gt = vf.tlc_gen('gen/MC_C07', c, timeout=2400)
         rep.add_tlc(gt[1])
